@@ -72,6 +72,12 @@ func streamQuery(w *World, ctx sdk.Context, sender, receiver string) (*streamtyp
 }
 
 func streamFeeRate(w *World, ctx sdk.Context) *big.Rat {
+	// the rate in force is the one of the last update that was adopted (genesis, or a proposal that
+	// passed and executed as a whole) - not whatever the node answers when asked, which is itself
+	// under test
+	if w.M != nil && w.M.Str != nil && w.M.Str.ValFee != nil {
+		return new(big.Rat).Set(w.M.Str.ValFee)
+	}
 	r, err := w.Ref.App.StreamKeeper.Params(sdk.WrapSDKContext(ctx), &streamtypes.QueryParamsRequest{})
 	if err != nil || r.Params.ValidatorFee.IsNil() {
 		return new(big.Rat)
